@@ -311,11 +311,13 @@ def replay_buffer(args):
     bmap = ValueMap("RGB-buffer" if mode == "RGB" else mode)
     emode = getattr(ImageMode, mode)
     problems = []
+    seen_keys = {}
     stats = {"calls": 0, "loads": 0, "chain_max": 0, "bad": 0, "states": len(states)}
 
     def bad(sev, key, msg, rep):
         stats["bad"] += 1
-        if len(problems) < 12:
+        seen_keys[key] = seen_keys.get(key, 0) + 1
+        if seen_keys[key] <= 2 and len(problems) < 12:          # a couple of written-out cases per monitor key
             problems.append((sev, key, msg, rep))
 
     # the source images and the real indexers the call ids refer to
@@ -429,6 +431,7 @@ def replay_files(args):
     table = T["fmt"][fmt]             # (mode, code) -> {(op, mode, code): (fmode, fcode, gkind, gmode, gcode, gsz)}
     maps = dict((m, ValueMap(m)) for m in MODES)
     problems = []
+    seen_keys = {}
     stats = {"calls": 0, "writes": 0, "reads": 0, "bad": 0}
     d = os.path.join(basedir, "%s-%d" % (fmt, part))
     pio = PyramidIO(d, default_format=fmt)
@@ -439,7 +442,8 @@ def replay_files(args):
 
     def bad(key, msg, rep):
         stats["bad"] += 1
-        if len(problems) < 12:
+        seen_keys[key] = seen_keys.get(key, 0) + 1
+        if seen_keys[key] <= 2 and len(problems) < 12:          # a couple of written-out cases per monitor key
             problems.append(("V", key, msg, rep))
 
     def hist(call):
